@@ -96,12 +96,29 @@ return self.theDraws
     store = [x for x in walk_no_nested(srg.node) if isinstance(x, ast.Assign) and unparse(x.targets[0]) == 'self.userRandomNumberGenerators']
     ok = len(loops) == 1 and len(store) == 1 and has(srg.node, f'for _K in native_random_number_generators:\n    if _K in {p}:\n        ___\n        raise ValueError(__MSG)') and c2.dominates(c2.node_of(loops[0]), c2.node_of(store[0]))
     ctx.add('C10.R3', 'Database.set_random_number_generators', ok, srg, 'a user generator cannot take the name of a native one' if ok else 'reserved names are no longer refused before the user generators are stored', 'reserved')
+    # what is registered is exactly what this call received, key by key
+    from ..core import inline_locals
+    from ..pattern import _parse, m_node
+
+    oks = False
+    det = ''
+    if len(store) == 1:
+        val = inline_locals(srg.node, store[0].value)
+        det = unparse(val)[:140]
+        oks = m_node(_parse(f'{{_K: convert_random_generator_tuple(the_tuple=_T) for _K, _T in {p}.items()}}')[0].value, val, {}) or \
+            m_node(_parse(f'{{_K: convert_random_generator_tuple(_T) for _K, _T in {p}.items()}}')[0].value, val, {})
+    ctx.add('C10.R3', 'Database.set_random_number_generators:registered', oks, srg,
+            'the registered generators are those of this call, under their own names' if oks
+            else f'the table of user generators is no longer the converted argument of this call ({det}): a type name may keep another generator than the one just registered', det)
     from . import c01
 
     sub = Ctx(prog, ctx.prop, ctx.tier)
     c01.run(sub)
     for o in sub.obligations:
-        if o.construct in ('MonteCarlo:record', 'Integrate:record', 'Derive:record', 'bioDraws:record', 'RandomVariable:record', 'Integrate.get_signature', 'Derive.get_signature'):
+        if o.construct in ('MonteCarlo:record', 'Integrate:record', 'Derive:record', 'bioDraws:record', 'RandomVariable:record', 'Integrate.get_signature', 'Derive.get_signature',
+                           'bioDraws.get_signature', 'RandomVariable.get_signature', 'bioDraws.set_id_manager', 'RandomVariable.set_id_manager',
+                           'bioDraws.dict_of_elementary_expression', 'RandomVariable.dict_of_elementary_expression',
+                           'MonteCarlo.__init__(child)', 'Integrate.__init__(child)', 'Derive.__init__(child)'):
             ctx.add('C10.R4', o.construct, o.ok, (o.file, o.line), o.message, o.detail)
     ecc(ctx, 'C10.R4', methods={'setDraws'})
     calc = prog.func('expressions.calculator', 'calculate_function_and_derivatives')
